@@ -213,6 +213,28 @@ func Run(t *testing.T, cfg Config, root func()) (res *Result) {
 				s.res.InfraError = fmt.Sprintf("simulator panic: %v\n%s", e, debug.Stack())
 			}
 		}()
+		if RaceBuild {
+			// the testing package fails (and then aborts) a test in which the race detector fired;
+			// a sub-test per run keeps one report from ending the whole batch
+			t.Run("run", func(t2 *testing.T) {
+				defer func() {
+					if e := recover(); e != nil {
+						msg := fmt.Sprint(e)
+						if strings.Contains(msg, "deadlock") && strings.Contains(msg, "bubble") {
+							if s.res.InfraError == "" && len(s.res.Stuck) == 0 {
+								s.res.Stuck = append(s.res.Stuck, "bubble: "+msg)
+							}
+							return
+						}
+						s.res.InfraError = fmt.Sprintf("simulator panic: %v\n%s", e, debug.Stack())
+					}
+				}()
+				synctest.Test(t2, func(t3 *testing.T) {
+					s.bubble(root)
+				})
+			})
+			return
+		}
 		synctest.Test(t, func(t *testing.T) {
 			s.bubble(root)
 		})
@@ -246,7 +268,9 @@ func (s *Sim) bubble(root func()) {
 	active.Store(s)
 
 	main := s.newTask("main")
-	go main.run(s, root)
+	go main.run(s, root) // started with synchronisation visible: everything before the run happens-before it
+	raceOff()
+	defer raceOn()
 
 	s.loop(main)
 	s.res.SimTime = time.Since(s.start)
@@ -283,7 +307,9 @@ func (s *Sim) newTask(name string) *Task {
 }
 
 func (t *Task) run(s *Sim, fn func()) {
+	raceOff()
 	<-t.baton
+	raceOn()
 	if s.cfg.CheckGoid {
 		t.gid = goid()
 	}
@@ -291,6 +317,7 @@ func (t *Task) run(s *Sim, fn func()) {
 		if e := recover(); e != nil {
 			s.recordPanic(e, true)
 		}
+		raceOff()
 		t.state.Store(stDone)
 	}()
 	if s.shutdown.Load() {
@@ -525,8 +552,10 @@ func (s *Sim) park(t *Task, cond func() bool, wakeAt time.Time, quiesce bool) {
 	t.cond = cond
 	t.wakeAt = wakeAt
 	t.quiesce = quiesce
+	raceOff()
 	t.state.Store(stParked)
 	<-t.baton
+	raceOn()
 	if s.shutdown.Load() {
 		runtime.Goexit()
 	}
@@ -539,12 +568,14 @@ func (s *Sim) unblock(t *Task) {
 	t.cond = nil
 	t.wakeAt = time.Time{}
 	t.quiesce = false
+	raceOff()
 	t.state.Store(stParked)
 	select {
 	case s.wake <- struct{}{}:
 	default:
 	}
 	<-t.baton
+	raceOn()
 	if s.shutdown.Load() {
 		runtime.Goexit()
 	}
@@ -650,12 +681,14 @@ func AfterFunc(d time.Duration, f func()) *time.Timer {
 			}
 			t.state.Store(stDone)
 		}()
+		raceOff()
 		t.state.Store(stParked)
 		select {
 		case s.wake <- struct{}{}:
 		default:
 		}
 		<-t.baton
+		raceOn()
 		if s.shutdown.Load() {
 			return
 		}
@@ -975,6 +1008,18 @@ func (s *Sim) TaskDump() []string {
 	sort.Strings(out)
 	return out
 }
+
+// ---- registry of objects of the current run (probes) ----
+
+var registry = map[string][]any{}
+
+// RegAdd remembers x under key for the rest of the run.
+func RegAdd(key string, x any) { registry[key] = append(registry[key], x) }
+
+// RegList returns what was remembered under key in this run.
+func RegList(key string) []any { return registry[key] }
+
+func init() { OnReset(func() { clear(registry) }) }
 
 // ---- reset hooks (pools etc.) ----
 
